@@ -180,7 +180,7 @@ theorem stepPc_repo (H : Nat → Nat) (cfg : Cfg) (prog : Prog) (exO shO : Bool)
         (stepPc H cfg prog exO shO g pc).1.repo = (if cfg.ff then .valid (setPkg l (opBid prog) (opSize prog)) else .torn))
     ∨ (pc = .iAddCreate ∧ g.repo = .absent)
     ∨ (pc = .iAddCreateLock)
-    ∨ (pc = .iAddOpen ∧ g.repo = .absent ∧ cfg.emptyOk = true ∧ (stepPc H cfg prog exO shO g pc).1.repo = .torn)
+    ∨ (pc = .iAddTouch ∧ g.repo = .absent ∧ (stepPc H cfg prog exO shO g pc).1.repo = .torn)
     ∨ (∃ l t f, pc = .iAddClose (some l) t f)
     ∨ (∃ l r, pc = .gClose (some l) r)
     ∨ (∃ rm plan t d te, pc = .gMove rm plan t d te) := by
@@ -202,14 +202,10 @@ theorem stepPc_repo (H : Nat → Nat) (cfg : Cfg) (prog : Prog) (exO shO : Bool)
     | valid l => left; simp [hr]
     | torn => left; simp [hr]
   case iAddCreateLock => right; right; right; left; rfl
-  case iAddOpen =>
+  case iAddTouch =>
     unfold stepPc; simp only
     cases hr : g.repo with
-    | absent =>
-      simp only
-      cases he : cfg.emptyOk with
-      | true => right; right; right; right; left; exact ⟨by simp, by simp, by simp, by simp⟩
-      | false => left; simp [hr]
+    | absent => right; right; right; right; left; exact ⟨by simp, by simp, by simp⟩
     | valid l => left; simp [hr]
     | torn => left; simp [hr]
   case iAddClose pend t f =>
@@ -369,6 +365,9 @@ theorem stepPc_pcFF (H : Nat → Nat) (prog : Prog) (exO shO : Bool) (g : Store)
     · exact pcFF_afterShare _ _ _ (by intro e he; cases he)
     · trivial
   case iAddOpen =>
+    unfold stepPc; simp only
+    cases hr : g.repo <;> trivial
+  case iAddTouch =>
     unfold stepPc; simp only
     cases hr : g.repo <;> trivial
   case iAddLock =>
@@ -583,7 +582,7 @@ def Pc.dirty : Pc → Bool
 
 /-- published, not yet recorded in repo.json -/
 def Pc.inWindow : Pc → Bool
-  | .iAddOpen | .iAddLock | .iAddCreate | .iAddCreateLock => true
+  | .iAddOpen | .iAddTouch | .iAddLock | .iAddCreate | .iAddCreateLock => true
   | _ => false
 
 theorem Pc.rmeta_of_notEX {pc : Pc} (h : pc.holdsEX = false) : pc.rmeta = none := by
@@ -633,6 +632,7 @@ theorem stepPc_inWindow_enter (H : Nat → Nat) (cfg : Cfg) (prog : Prog) (exO s
     | none => exact ⟨⟨tmp, rfl⟩, rfl⟩
     | some d => simp [hf] at h
   case iAddOpen => simp [Pc.inWindow] at hpc
+  case iAddTouch => simp [Pc.inWindow] at hpc
   case iAddLock => simp [Pc.inWindow] at hpc
   case iAddCreate => simp [Pc.inWindow] at hpc
   case iAddCreateLock => simp [Pc.inWindow] at hpc
@@ -654,6 +654,10 @@ theorem stepPc_inWindow_stay (H : Nat → Nat) (cfg : Cfg) (prog : Prog) (exO sh
     unfold stepPc; simp only
     cases hr : g.repo <;> simp only <;> (try split) <;> rfl
   case iAddCreate =>
+    left
+    unfold stepPc; simp only
+    cases hr : g.repo <;> rfl
+  case iAddTouch =>
     left
     unfold stepPc; simp only
     cases hr : g.repo <;> rfl
